@@ -14,8 +14,11 @@ fn edges(w: &World) -> [[bool; MAXD]; MAXD] {
     for i in 0..w.defs.len() {
         for dep in w.defs[i].deps.iter() {
             if *dep == "request" || *dep == "self" { continue; }
-            let ex = if *dep == w.defs[i].name { Some(i) } else { None };
-            if let Some(j) = spec::resolve(w, w.defs[i].file, dep, ex) { e[i][j] = true; }
+            // a same-named parameter resolves to the next definition outward; when there is none pytest reports a
+            // recursive dependency on the fixture itself (self-loop)
+            let own = *dep == w.defs[i].name;
+            let j = spec::resolve(w, w.defs[i].file, dep, if own { Some(i) } else { None }).or(if own { Some(i) } else { None });
+            if let Some(j) = j { e[i][j] = true; }
         }
     }
     e
@@ -37,8 +40,8 @@ fn chain_is_real(w: &World, c: &FixtureCycle) -> bool {
     let mut cur = anchor;
     for name in c.cycle_path.iter().skip(1) {
         if !w.defs[cur].deps.iter().any(|d| *d == name.as_str()) { return false; }
-        let ex = if name.as_str() == w.defs[cur].name { Some(cur) } else { None };
-        match spec::resolve(w, w.defs[cur].file, name, ex) { Some(j) => cur = j, None => return false }
+        let own = name.as_str() == w.defs[cur].name;
+        match spec::resolve(w, w.defs[cur].file, name, if own { Some(cur) } else { None }).or(if own { Some(cur) } else { None }) { Some(j) => cur = j, None => return false }
     }
     cur == anchor
 }
